@@ -155,9 +155,9 @@ PROPS["C11"] = {
 PROPS["C17"] = {
     "claimed": True, "module": "Rough.Props.C17",
     "theorems": ["Rough.Props.C17.C17_conservation", "Rough.Props.C17.C17_bounded", "Rough.Props.C17.C17_equiv", "Rough.Props.C17.C17_aggregated", "Rough.Props.C17.C17_merge", "Rough.Props.C17.C17_wiring"],
-    "streams": [{"args": ["stats"], "shards_quick": 8, "shards_thorough": 16}, {"args": ["srv", "c17"], "shards_quick": 8, "shards_thorough": 16}],
-    "ops": ["stats", "rep", "srv"], "trivial": r":rep=0$|^stats:len=0", "min_nontrivial": 500,
-    "rule": "stats cases: histories of the eight recording operations (+clear) on real PerClientStats (hook constructor with limits 0..3) and AggregatedStats over a pool of 3 addresses: bounded-exhaustive to length 4 (quick) / 5 (thorough), random to length 10000; splits across 1..4 recorders with snapshot points pushed through a real StatsQueue into Reporter::receive_client_stats. srv cases: traffic mixes through the in-process server, recorded totals vs datagrams actually received/sent; c17-timer scenarios run with status_interval 1 s so the worker's status timer publishes per-client snapshots through the real StatsQueue and clears the recorder between bursts: recorder + published snapshots must equal the traffic",
+    "streams": [{"args": ["stats"], "shards_quick": 8, "shards_thorough": 16}, {"args": ["srv", "c17"], "shards_quick": 8, "shards_thorough": 16}, {"args": ["respsend"], "shards_quick": 4, "shards_thorough": 8}],
+    "ops": ["stats", "rep", "srv", "respsend"], "trivial": r":rep=0$|^stats:len=0", "min_nontrivial": 500,
+    "rule": "stats cases: histories of the eight recording operations (+clear) on real PerClientStats (hook constructor with limits 0..3) and AggregatedStats over a pool of 3 addresses: bounded-exhaustive to length 4 (quick) / 5 (thorough), random to length 10000; splits across 1..4 recorders with snapshot points pushed through a real StatsQueue into Reporter::receive_client_stats. srv cases: traffic mixes through the in-process server, recorded totals vs datagrams actually received/sent; c17-timer scenarios run with status_interval 1 s so the worker's status timer publishes per-client snapshots through the real StatsQueue and clears the recorder between bursts: recorder + published snapshots must equal the traffic. respsend cases: Responder::send_responses called directly on a real IPv4 socket with queues of 1..20 requests (both protocols, both recorders) some of whose return addresses cannot be sent to (IPv6: send_to fails) in the patterns none/first/last/middle/all/random: recorded responses, bytes and failed sends per address vs the datagrams the harness's receiver sockets actually got, and vs the model's send_responses with the same send outcomes",
     "trusted_base": ["hooks: PerClientStats::with_limit_verif, Server::stats_verif (cfg roughenough_verif, add-only)", "crossbeam ArrayQueue with capacity >= number of snapshots (force_push never evicts)"],
     "assumptions": ["counters are modelled as Nat (Rust u32/u64/usize: no overflow below 2^32 events per interval)", "first_seen timestamps are not compared"],
     "design_ref": "5/C17",
@@ -262,7 +262,9 @@ PROPS["C19"] = {
 }
 # process-level streams added to C03 and C20
 PROPS["C20"]["streams"] = PROPS["C20"]["streams"] + [{"args": ["procleak"], "shards_quick": 4, "shards_thorough": 8, "timeout": 600}]
-PROPS["C20"]["ops"] = ["srv", "procleak"]
+PROPS["C20"]["streams"] = PROPS["C20"]["streams"] + [{"args": ["cfgleak"], "shards_quick": 2, "shards_thorough": 4}]
+PROPS["C20"]["ops"] = ["srv", "procleak", "cfgleak"]
+PROPS["C20"]["rule"] += ". cfgleak cases: the configuration loaders (make_config, is_valid_config, load_seed, LongTermKey::new) run in a probe process under a capturing logger at every level Off..Trace, file and environment source, seed written in lower / upper / mixed-case hexadecimal, valid and four invalid configurations: every log record, the error's Debug text, the key's Display text and the probe's stderr are searched (hex patterns case-insensitively)"
 PROPS["C20"]["need_bins"] = True
 
 
@@ -350,6 +352,12 @@ EXTRA2 = {
     "C06": ["C05_values_aligned"],
     "C16": ["C16_bad_seed_text_refused"],
 }
+EXTRA3 = {
+    "C17": ["C17_send_failure_refines", "C17_send_all_ok", "C17_send_events_match_wire"],
+}
+for _pid, _ts in EXTRA3.items():
+    PROPS[_pid]["extra_modules"] = sorted(set(PROPS[_pid].get("extra_modules", []) + ["Rough.Props.Extra3"]))
+    PROPS[_pid]["theorems"] = PROPS[_pid]["theorems"] + ["Rough.Props.Extra3." + t for t in _ts]
 for _pid, _ts in EXTRA2.items():
     PROPS[_pid]["extra_modules"] = sorted(set(PROPS[_pid].get("extra_modules", []) + ["Rough.Props.Extra2"]))
     PROPS[_pid]["theorems"] = PROPS[_pid]["theorems"] + ["Rough.Props.Extra2." + t for t in _ts]
